@@ -3,39 +3,67 @@ from propcfg.common import COMMON_ASSUME
 CFG = {
     "bin": "c19",
     "extra_bins": ["child"],
-    "technique": "Lean 4 proof (fold/append induction for the writers; invariant + measure over a two-pipe transition system) "
-                 "+ differential correspondence (all chunkings; scripted children under a watchdog) + translator fact (thread shape)",
+    "technique": "Lean 4 proof (fold/append induction for the writers, with flush() in the op alphabet and writers as call transducers so that "
+                 "compositions compose; invariant + measure over a two-pipe transition system) + differential correspondence (all chunkings x flush "
+                 "placements; scripted children under a watchdog, also into mapped/line_mapped/tee targets through both entry points) + translator "
+                 "facts (thread shape, copier body = std::io::copy)",
     "level_text": "Theorems (all inputs, no bound). A: chunk_independent (same concatenation => same state and output, from any state), "
                   "output_spec (output = f of each marker-terminated segment, then f of the remainder iff non-empty, for every marker/f/chunking), "
-                  "tee_full_input. B (model of command.rs): progress (no reachable non-final state is stuck, any capacity > 0, any script), "
-                  "termination (measure decreases on every step), delivery (per stream: delivered ++ in-pipe ++ to-be-written = the script's bytes; "
-                  "at return Output and writer hold them), sequential_variant_deadlocks (the statement discriminates), and the source-shape "
-                  "obligation copier_threads_spawned_before_joined over the regenerated Gen.Sites.",
+                  "tee_full_input (+ _short_writes), mapped_output_short_writes; with flush() as an operation: "
+                  "mapped_output_independent_of_flushes (every interleaving of writes and flushes, every short-write script of the inner writer: "
+                  "content = mappedOutput of the concatenated input), flushes_change_nothing (= the flush-free model; every flush forwarded), "
+                  "tee_full_input_with_flushes, compositions_independent_of_flushes (tee into mapped, mapped into tee, mapped of mapped), "
+                  "emitting_flush_violates_spec (the statement discriminates). B (model of command.rs): progress (no reachable non-final state is "
+                  "stuck, any capacity > 0, any script), termination (measure decreases on every step), delivery (per stream: delivered ++ in-pipe ++ "
+                  "to-be-written = the script's bytes; at return Output and writer hold them), sequential_variant_deadlocks (the statement "
+                  "discriminates), and the source-shape obligations copier_threads_spawned_before_joined, copiers_are_plain_io_copy over the "
+                  "regenerated Gen.Sites.",
     "level_note": "PARTIAL for the streaming half: the model has a script-driven child, two bounded byte queues and two copier steps; real OS pipes, "
                   "the scheduler, thread spawning, writer errors and grandchildren holding the pipe are not exhibited by it. Deadlock freedom of the real "
                   "process is only sampled: scripted children (0..4 pipe buffers of 64 KiB per stream, one stream first / alternating / simultaneous / "
                   "with delays) through the real output_and_write_streams under a 60 s watchdog (a timeout is retried once alone, then reported as "
-                  "observation `timeout`). The writer half (A) is a full proof on the model of write.rs, which is the code after the minimal D5 fix "
-                  "(remainder flushed on drop/unwrap only when non-empty). Trusted: Lean kernel; Spec/Streaming.lean (my reading of the property); "
-                  "translator (syn) for Gen.Sites; harness and driver glue.",
-    # A cases are shrunk by dropping chunks; B scripts (items separated by ";") are generated small and are not shrunk: every
+                  "observation `timeout`). How the copier chunks the child's bytes (and whether it calls anything but write on the supplied writer) is "
+                  "not in model B: it is covered by the writer theorems (any chunking, any flushes => same content) and sampled end to end by the M "
+                  "cases (lines arriving in pieces with 3-15 ms delays, lines longer than the 8 KiB copy buffer / the 64 KiB pipe, into line_mapped / "
+                  "mapped / tee(line_mapped, Vec) targets, through output_and_write_streams and spawn_and_write_streams); a copier that is no longer a "
+                  "plain std::io::copy call is reported by the translator as a broken tie. The writer half (A) is a full proof on the model of write.rs, "
+                  "which is the code after the minimal D5 fix (remainder flushed on drop/unwrap only when non-empty); flush() = forward to the inner "
+                  "writer(s), pending buffer kept. Trusted: Lean kernel; Spec/Streaming.lean (my reading of the property: a flush is not a write, so "
+                  "like the split it must not show in the output); translator (syn) for Gen.Sites; harness and driver glue.",
+    # A cases are shrunk by dropping ops (chunks and flushes); B/M scripts (items separated by ";") are generated small and are not shrunk: every
     # shrink candidate of a deadlocking script would cost two 60 s watchdog periods
     "shrink": [(3, ",")],
     "rule": "A exhaustive: every byte string over {marker, other} of length <= 9 (quick) / <= 10 (thorough) with marker='\\n' x every chunking into "
             "non-empty chunks, and length <= 7 / <= 8 with marker='a', other='\\n' (so mapped and line_mapped differ), prefix mapper add_prefix('> '), "
-            "through mapped (dropped), mapped (unwrap), line_mapped (dropped), tee; then 15k / 200k seeded inputs (<= 60 bytes, 3 symbols, 4 markers, "
-            "5 prefixes, empty chunks; half of them with short-writing targets). A with scripted targets (accept at most k in {1,2,3,7} bytes per call, alternate full/short, every n-th call Interrupted; first tee target / second / inner writer of the mapped writers, 12 configurations): every string of length <= 6 (7 thorough) x every chunking, fed with a write_all loop. B also with such writers handed to output_and_write_streams (6 configurations x 7 size pairs x seq/par). B: sizes {0,1,64Ki,64Ki+1,3*64Ki+17,4*64Ki} (thorough: 10 sizes) per stream in both orders, alternating, "
+            "through mapped (dropped), mapped (unwrap), line_mapped (dropped), tee, tee(a, mapped(b)), mapped(tee(a, b)), mapped(line_mapped(w, '| ')); "
+            "A with flush(): every string of length <= 4 (5 thorough) x every chunking x 0/1/2 flushes at each of the k+1 gaps (before the first "
+            "write, between writes, after the last), length 5 (6) with 0/1 flush per gap; marker='a' length <= 3 (4) with 0/1/2; short-writing targets "
+            "length <= 3 (4) with 0/1 x 12 configurations; then 15k / 200k seeded inputs (<= 60 bytes, 3 symbols, 4 markers, "
+            "5 prefixes, empty chunks; half of them with short-writing targets, half of them with flushes at the start / after chunks (sometimes twice) / at the end). "
+            "A with scripted targets (accept at most k in {1,2,3,7} bytes per call, alternate full/short, every n-th call Interrupted; first tee target / second / inner writer of the mapped writers, 12 configurations): every string of length <= 6 (7 thorough) x every chunking, fed with a write_all loop. B also with such writers handed to output_and_write_streams (6 configurations x 7 size pairs x seq/par). B: sizes {0,1,64Ki,64Ki+1,3*64Ki+17,4*64Ki} (thorough: 10 sizes) per stream in both orders, alternating, "
             "simultaneous (two writer threads in the child), with 5-20 ms delays, 60/400 small scripts (the driver runs the step model itself on "
-            "those), 30/300 random larger scripts. non-trivial: A = the input holds a marker, is split into >= 2 chunks and a chunk boundary falls "
-            "inside a segment; B = both streams non-empty or one stream larger than a pipe buffer; distinct = distinct input line",
+            "those), 30/300 random larger scripts. M (targets v=Vec, l=line_mapped, m=mapped at 'a', t=tee(line_mapped, Vec); entry out=output_and_write_streams, "
+            "spawn=spawn_and_write_streams+wait): a line in two pieces (5/15 ms apart) on both streams x 6 target pairs x 2 entries; a line in three pieces with its "
+            "newline alone x 6 target pairs x seq/par; one line of 8193 / 20000 / 64Ki+1 / 140000 bytes (thorough: 8 sizes) written at once x 4 target pairs; both "
+            "streams 70000-byte lines simultaneously; 20000-70000 bytes of 251-byte lines in one write; empty / newline-only output; 30/300 sampled scripts "
+            "(pieces of 0..30000 bytes, newlines, 3 ms delays, random targets and entry). non-trivial: A = the input holds a marker and (it is split into >= 2 "
+            "chunks with a chunk boundary inside a segment, or a flush arrives while a partial segment is pending); B = both streams non-empty or one stream "
+            "larger than a pipe buffer; M = a mapped target whose stream has a line written in several pieces or longer than 8 KiB; distinct = distinct input line",
     "exhaustive": True,
     "search_rounds": 1,
     "search_tier": "quick",
-    "trusted_base": ["Spec/Streaming.lean is my reading of the property (split of the whole input at markers; per-stream bytes of a script)",
-                     "Gen.Sites.copierEvents / copiersInOneScope regenerated from write_child_process_output (syn)",
-                     "Model B abstracts OS pipes to bounded byte queues and threads to interleaved steps (partial claim)"],
+    "trusted_base": ["Spec/Streaming.lean is my reading of the property (split of the whole input at markers; per-stream bytes of a script; "
+                     "writtenBytes: the input of a call sequence is the concatenation of its writes, a flush contributes nothing and must not show in the output)",
+                     "Gen.Sites.copierEvents / copiersInOneScope / copierBodies regenerated from write_child_process_output (syn); a copier closure that is "
+                     "not exactly std::io::copy(reader, writer) is reported as TIE-BROKEN, not interpreted",
+                     "Model B abstracts OS pipes to bounded byte queues and threads to interleaved steps (partial claim); the chunking / extra calls of the real "
+                     "copier reach the proof only through the writer theorems (content independent of chunking and flushes) and the M samples",
+                     "Model A: a wrapper writer is the sequence of calls it makes on what it wraps (write_all / flush), a bottom target is the calls it received; "
+                     "MappedWrite::flush and TeeWrite::flush as read from write.rs (forward only) - tied to the code by the flush counts and contents of the A cases",
+                     "for M and large B cases the driver's model observation is the proved closed form (finalOf, mappedOutput by output_spec / "
+                     "mapped_output_independent_of_flushes), the step/call models themselves run on scripts of <= 64 bytes"],
     "assumptions": COMMON_ASSUME + [
-        "Vec<u8> as io::Write appends; io::copy forwards what it reads, in order, until EOF; a pipe reports EOF once empty and all write ends are closed",
+        "Vec<u8> as io::Write appends and its flush is a no-op; io::copy forwards what it reads, in order, until EOF, in chunks of its choosing, calling only write on the writer; a pipe reports EOF once empty and all write ends are closed",
         "crossbeam scoped threads run concurrently once spawned; the OS schedules every runnable process/thread eventually (fairness)",
     ],
 }
